@@ -356,6 +356,13 @@ def _hints_from_signature(obj: tp.Union[type, tp.Callable]) -> dict[str, type[tp
             )
             hints[name] = ref
             continue
+        if isinstance(annotation, tp.ForwardRef) and annotation.__forward_module__ is None:
+            # (A NamedTuple keeps its string annotations as references without a module.)
+            annotation = refs.forwardref(
+                annotation.__forward_arg__,
+                is_argument=True,
+                module=getattr(obj, "__module__", None),
+            )
         hints[name] = annotation  # pragma: no cover
     return hints
 
